@@ -454,7 +454,7 @@ def req(*fields):
     return "\t".join(esc(f) for f in fields)
 
 
-def drive(binpath, requests, sh=None, cpu=20, wall=120, env=None, argv_extra=(), max_restarts=50):
+def drive(binpath, requests, sh=None, cpu=20, wall=120, env=None, argv_extra=(), max_restarts=50, preamble=()):
     """send REQUESTS (list of str lines) to a line-protocol driver.
 
     Returns (answers, deaths): answers[i] is the answer line (str) or None when
@@ -467,13 +467,16 @@ def drive(binpath, requests, sh=None, cpu=20, wall=120, env=None, argv_extra=(),
     restarts = 0
     while pos < len(requests):
         chunk = requests[pos:]
-        r = run([str(binpath)] + list(argv_extra), stdin=("\n".join(chunk) + "\n").encode("latin-1"),
+        # the preamble (e.g. "O <zone file>") re-establishes the driver's state after a restart
+        pre = list(preamble) if pos > 0 else []
+        r = run([str(binpath)] + list(argv_extra), stdin=("\n".join(pre + chunk) + "\n").encode("latin-1"),
                 cpu=cpu, wall=wall, env=env)
         if sh is not None:
             sh.procs += 1
         outl = r.out.decode("latin-1").split("\n")
         if outl and outl[-1] == "":
             outl.pop()
+        outl = outl[len(pre):]
         n = min(len(outl), len(chunk))
         for k in range(n):
             answers[pos + k] = outl[k]
